@@ -153,7 +153,12 @@ func (k Key) ValidateChannel(ch *Channel) bool {
 		}
 
 		// A target which only has '+' parts before its '#/' has an empty path as well
-		for depth, wildcards := 1, "+"; depth <= len(parts); depth, wildcards = depth+1, wildcards+"/+" {
+		maxDepth := len(parts)
+		if wc {
+			maxDepth++ // A channel ending with '#' stands for at least one more part
+		}
+
+		for depth, wildcards := 1, "+"; depth <= maxDepth; depth, wildcards = depth+1, wildcards+"/+" {
 			if hash.OfString(wildcards) == target {
 				return true
 			}
@@ -193,6 +198,12 @@ func (k Key) ValidateChannel(ch *Channel) bool {
 	keyIsExactTarget := ((targetPath >> 23) & 1) == 1
 	if keyIsExactTarget {
 		return hash.OfString(strings.Join(parts, "/")) == target
+	}
+
+	// A channel ending with '#' stands for at least one more part, which may be
+	// where the target has its trailing '+'
+	if wc {
+		parts = append(parts, "+")
 	}
 
 	// For a '#/' target the channel can be deeper than the target, whose own
